@@ -51,9 +51,11 @@ func (msg *message) fetch(w *imapserver.FetchResponseWriter, options *imap.Fetch
 		_, writeErr := wc.Write(buf)
 		closeErr := wc.Close()
 		if writeErr != nil {
+			w.Close()
 			return writeErr
 		}
 		if closeErr != nil {
+			w.Close()
 			return closeErr
 		}
 	}
